@@ -11,7 +11,7 @@ from vf.exprgen import grammar as GR
 from vf.progmodel.run import scratch_dir
 
 _counter = itertools.count()
-FUNC_PARAMS = "x, n, s, xs, ys, ss, d, t, o, m, id=None, Y=7"
+FUNC_PARAMS = "x, n, s, xs, ys, ss, d, t, o, m, id=None, G=5, Y=7"
 
 HEADER = """import icontract
 from vf.exprlib import ident, add, kw, first, p, Node, Mat
@@ -81,9 +81,9 @@ def adapt(text, params, role):
 
 
 def module_text(cond_text, lam_params, role="require", is_async=False, description="the-desc", layout=None, error=None,
-                a_repr=None):
-    """Return (module text, first line of the decorator, last line of the decorator)."""
-    head = HEADER % GR.GLOBAL_VALUES
+                a_repr=None, nest="func", above=(), below=(), prelude=""):
+    """Return (module text, first line of the decorator, last line of the decorator, expected scope name)."""
+    head = HEADER % GR.GLOBAL_VALUES + prelude
     lam = "lambda %s: %s" % (", ".join(lam_params), cond_text)
     extra = ""
     if error:
@@ -96,30 +96,52 @@ def module_text(cond_text, lam_params, role="require", is_async=False, descripti
     else:
         deco = layout(deco_name, lam_params, cond_text, description, extra)
     lines = head.split("\n")
-    lines.append("def make(C, CS, CL):")
-    ind = "    "
+    if nest == "module":
+        for k, v in GR.CLOSURE_VALUES.items():
+            lines.append("%s = %r" % (k, v))
+        ind = ""
+        scope = "<module>"
+    else:
+        lines.append("def make(C, CS, CL):")
+        ind = "    "
+        scope = "make"
+        if nest == "class" and role != "invariant":
+            lines.append(ind + "class Holder:")
+            ind += "    "
+            scope = "Holder"
+            lines.append(ind + "@staticmethod")
+    for a in above:
+        lines.append(ind + a)
     start = len(lines) + 1
+    for d in deco:
+        lines.append((ind + d) if d.strip() else "")
+    end = len(lines)
+    for b in below:
+        lines.append(ind + b)
     if role == "invariant":
-        for d in deco:
-            lines.append(ind + d)
-        end = len(lines)
         lines.append(ind + "class K:")
         lines.append(ind + "    def __init__(self, %s):" % FUNC_PARAMS)
         for a in list(GR.ARGS) + ["Y"]:
             lines.append(ind + "        self.%s = %s" % (a, a))
         lines.append(ind + "    def __repr__(self):")
         lines.append(ind + "        return 'K()'")
-        lines.append(ind + "return K")
+        ret = "K"
     else:
-        for d in deco:
-            lines.append(ind + d)
-        end = len(lines)
         lines.append(ind + "%sdef f(%s):" % ("async " if is_async else "", FUNC_PARAMS))
         lines.append(ind + "    return x")
-        lines.append(ind + "return f")
-    lines.append("")
-    lines.append("F = make(%(C)r, %(CS)r, %(CL)r)" % GR.CLOSURE_VALUES)
-    return "\n".join(lines) + "\n", start, end
+        ret = "f"
+    if nest == "module":
+        lines.append("")
+        lines.append("F = %s" % ret)
+    elif nest == "class" and role != "invariant":
+        lines.append("    return Holder.f")
+        lines.append("")
+        lines.append("F = make(%(C)r, %(CS)r, %(CL)r)" % GR.CLOSURE_VALUES)
+    else:
+        lines.append("    return %s" % ret)
+        lines.append("")
+        lines.append("F = make(%(C)r, %(CS)r, %(CL)r)" % GR.CLOSURE_VALUES)
+    return "\n".join(lines) + "\n", start, end, scope
 
 
 class Module:
